@@ -21,7 +21,7 @@ CLAIMS = {
     },
     "C13": {
         "level": "other",
-        "technique": "static wiring table + path-literal analysis of the wrapper decoders + a semantic template for floor_char_boundary/truncate with slots extracted from typed HIR and side conditions evaluated on the slot values (boundary byte set expanded from the predicate's AST over 256 bytes)",
+        "technique": "static wiring table + path summaries of the wrapper decoders + a semantic template for floor_char_boundary/truncate with slots read from the path terms and side conditions evaluated on the slot values (boundary byte set: the predicate constant-folded for each of the 256 byte values)",
         "text": "Decides the wiring (which member uses which lossy decoder with which capacity), the exact keep/drop condition of the icon decoder, and every structural parameter the longest-prefix argument depends on "
                 "(inclusive window of >= 4 positions ending at the cut, last match, result arithmetic, boundary byte set, truncate's own L, prefix pushed into a fresh String<L>), and that no other panic-capable construct exists in these functions. "
                 "The for-all-strings conclusion is the paper argument over these slots (DESIGN.md), not an exploration.",
@@ -29,35 +29,35 @@ CLAIMS = {
     },
     "C14": {
         "level": "other",
-        "technique": "static error-discipline / who-may-call / path-literal rules on the two hand-written filtering visit_seq loops and on the known-parameter conversion; constants and capacities from rustc's evaluated tables",
+        "technique": "static error-discipline / who-may-call rules on the path summaries (one symbolic loop iteration) of the two hand-written filtering visit_seq loops; decision table of the known-parameter conversion over a probe domain; constants and capacities from rustc's evaluated tables",
         "text": "Decides that the only failure of either list decoder is a CBOR fault in next_element, that unknown entries continue / set the flag, that known entries are appended in input order by push with its Result discarded (first N by capacity), "
                 "that the accepted set is exactly {type == \"public-key\", alg in {-7,-8}} / {\"none\",\"packed\"}, and that the capacities equal the number of known values. This fixes the filters' input/output relation for every list.",
         "note": DEPS + "Relative to heapless Vec::push and cbor-smol's SeqAccess.",
     },
     "C07": {
         "level": "other",
-        "technique": "static ordered-append analysis: exhaustive path enumeration of the two serializers from typed HIR, per-path append sequence vs the WebAuthn layout, who-may-call on the buffer, Result-propagation (error discipline) on every append",
+        "technique": "static ordered-append analysis on path summaries (path-sensitive value propagation over typed HIR with /repo helpers expanded at their call sites): per-path byte/big-endian/chunk segments vs the WebAuthn layout, who-may-call on the buffer, fate of every append's Result (error discipline), monomorphic-graph panic obligations",
         "text": "Layout order, field widths, endianness, presence-iff-supplied of the optional parts, append-only use of a fresh Bytes<676>, and propagation of every append's and the length conversion's failure are all structural and are decided completely on every path; "
                 "flag and capacity constants are compared with the specification. Together this gives the exact layout and error-not-panic/never-shortened for all inputs, relative to heapless's all-or-nothing appends.",
         "note": DEPS + "Not decided: CBOR bytes of the extension map (C02/C03 + cbor-smol).",
     },
     "C08": {
         "level": "other",
-        "technique": "static path-literal analysis of the APDU parser (result sites with canonicalised dominating guards), guard-chain totality rule, interval-domain discharge of every index/slice/unwrap obligation, control-byte table extraction",
-        "text": "Every result of the parser is decided from the set of branch literals that dominate it, compared with the literals the U2F raw message format requires (class precedence, instruction, exact lengths, offsets), the error exits are shown to be exactly the single negations of each success guard chain (totality and exactness), "
-                "and every panic-capable slice operation is discharged by an interval fact from those guards. Holds for all APDUs relative to iso7816's accessors.",
+        "technique": "static path summaries of the APDU parser (helpers expanded, constants evaluated); the comparisons of each path interpreted as sets: class/instruction over 0..=255, data-length conditions over the complete (length 0..=1100) x (byte 64) grid with a slice algebra; bounds obligation of every slice operation checked on the region admitted before it; control-byte table",
+        "text": "Every result of the parser is decided from the set of branch literals that dominate it, compared with the literals the U2F raw message format requires (class precedence, instruction, exact lengths, offsets), on every (class, instruction, P1 validity, length, byte 64) combination the admitting path returns what the raw message format prescribes (totality and exactness), "
+                "and every panic-capable slice operation is discharged on the set of (length, byte 64) combinations admitted by the comparisons that precede it. Holds for all APDUs relative to iso7816's accessors.",
         "note": DEPS + "Not decided: Lc/Le framing and Instruction::from (iso7816).",
     },
     "C09": {
         "level": "other",
-        "technique": "static ordered-append analysis of ctap1::Response::serialize per variant, who-may-call / Result-propagation rules, static-capacity discharge of the u8 length cast and of register::Response::new's unwraps",
+        "technique": "static ordered-append analysis of ctap1::Response::serialize per variant on path summaries (helpers expanded, literal-array loops unrolled), who-may-call / fate-of-Result rules, static-capacity discharge of the u8 length cast and of register::Response::new's unwraps",
         "text": "Append order, big-endian counter, length-of-the-same-key-handle, append-only use of the caller's buffer, propagation of every append's failure and unconditional appends (length = sum of parts) are decided on every path; "
                 "the narrowing cast and the three unwraps are discharged from type-level capacities (255 <= u8::MAX, 1+32+32 <= 65).",
         "note": DEPS + "Relative to heapless's all-or-nothing push/extend_from_slice.",
     },
     "C05": {
         "level": "other",
-        "technique": "static decision-table extraction of the error conversion expanded over every cbor_smol::Error variant; funnel (error-discipline) rule over all result and `?` sites of Request::deserialize; required-set agreement of the generated decoders",
+        "technique": "static decision-table extraction of the error conversion (path summaries selected per (outer, cbor_smol::Error) variant pair); funnel (error-discipline) rule over every error path of Request::deserialize described over the command byte; required-set agreement of the generated decoders",
         "text": "Decides that the only statuses a rejected request can carry are 0x01/0x14/0x12, which fault class selects which (conversion table total over the foreign error enum), that every error exit of the request decoder goes through that conversion with a fixed constructor, "
                 "and that exactly the specification's required members have a missing_field exit (all request and nested types, 9 configurations). Which cbor_smol::Error a given malformed input raises is the dependency's and is not decided.",
         "note": DEPS + "Relies on cbor-smol mapping serde's missing_field to Error::SerdeMissingField.",
@@ -108,14 +108,14 @@ CLAIMS = {
     },
     "C17": {
         "level": "other",
-        "technique": "exhaustive control-flow path enumeration of the loop-free Response::serialize from typed HIR with ordered effect extraction (who-may-call on the buffer, definite assignment of the status byte, final-length literal per path)",
+        "technique": "exhaustive path summaries of Response::serialize from typed HIR (path-sensitive value propagation, helpers expanded): per path the variant, the encoder outcome, ordered buffer operations, the status value and the final length term; per-variant body wiring; monomorphic-graph panic obligations",
         "text": "Every path (variant arm x {Ok&[0xA0], Ok, Err}) is decided clause by clause: grow to capacity first, split status/body, only the encoder writes the body tail, status assigned exactly once with the right constant, "
                 "final resize is the last buffer operation with n = 1 or written-length + 1, resize results discarded. That gives complete-or-one-byte-0x7F and independence from prior contents relative to cbor_serialize's contract.",
         "note": DEPS + "Assumes cbor_serialize returns Err rather than a truncated prefix when the body does not fit, and N >= 1 (the property's precondition).",
     },
     "C10": {
         "level": "proof",
-        "technique": "static decision-table extraction from typed HIR of the dispatchers (resolved trait-method callees, per-arm effect and `?` plumbing analysis), parametric in the authenticator",
+        "technique": "static decision-table extraction from the path summaries of the dispatchers (resolved trait-method callees as opaque effects, results made explicit as Ok/Err), parametric in the authenticator",
         "text": "Each dispatcher arm is decided clause by clause (exactly one opaque trait-method call on self with the arm's bindings, the oracle's response constructor, error leaving through one `?` "
                 "with at most a logging-only inspect_err, no other effect, no loop); handlers are opaque trait calls, so the argument is parametric: it holds for every authenticator and every request value. "
                 "All arms x clauses are discharged in all 9 configurations.",
@@ -132,7 +132,7 @@ CLAIMS = {
     },
     "C18": {
         "level": "proof",
-        "technique": "static table extraction (match patterns, evaluated constants, discriminants) + row-by-row comparison with an oracle table, both directions",
+        "technique": "static table extraction (value / variant tables from path summaries, evaluated constants, discriminants) + row-by-row comparison with an oracle table, both directions",
         "text": "All identifier tables are finite; each is read from the type-checked program (evaluated associated constants, enum discriminants, first-match pattern tables of the hand-written "
                 "and serde_repr-generated conversions, all 256 bytes for the TryFrom<u8> tables) and compared row by row with spec/identifiers.json in both directions, including the rejecting catch-all "
                 "that makes every other string/number invalid, in all 9 configurations.",
@@ -140,7 +140,7 @@ CLAIMS = {
     },
     "C11": {
         "level": "proof",
-        "technique": "static table extraction from typed HIR + exhaustive finite-domain comparison with an oracle table; path-literal analysis of the command switch",
+        "technique": "static table extraction from path summaries (value sets over 0..=255 of the comparisons on each path) + exhaustive finite-domain comparison with an oracle table; byte-level decision table of the command switch",
         "text": "The byte<->Operation match tables are read from the type-checked program and expanded by pattern semantics over all 256 bytes / all variants, "
                 "compared row by row with an independent oracle and with each other (inverse, injective); the command switch of Request::deserialize is decided per arm. "
                 "The domain is finite and enumerated completely from the extracted patterns in all 9 feature configurations, so this is a proof relative to the compiler's match semantics.",
